@@ -570,8 +570,15 @@ func affineOf(v, L ssa.Value, depth int) aff {
 	return aff{}
 }
 
+// lenSym stands for "the length of this slice parameter" as the symbol of a helper summary
+// (readFixed(r, buf) consumes len(buf) bytes).
+type lenSym struct{ ssa.Value }
+
 // sliceLenAff: length of a freshly made buffer.
 func sliceLenAff(s, L ssa.Value, depth int) aff {
+	if ls, ok := L.(*lenSym); ok && s == ls.Value {
+		return aff{1, 0, true}
+	}
 	switch x := s.(type) {
 	case *ssa.MakeSlice:
 		return affineOf(x.Len, L, depth+1)
@@ -625,24 +632,31 @@ func getBufferReturnsLen(f *ssa.Function) bool {
 	}
 	n := f.Params[0]
 	for _, ret := range returnsOf(f) {
-		switch x := ret.Results[0].(type) {
-		case *ssa.MakeSlice:
+		rv := ret.Results[0]
+		if x, isMk := rv.(*ssa.MakeSlice); isMk {
 			if x.Len != ssa.Value(n) {
 				return false
 			}
-		case *ssa.TypeAssert:
-			// pooled buffer: must be dominated by n == const
-			ok := false
-			for _, g := range guardsOf(ret.Block()) {
-				g = g.norm()
-				if bo, isb := g.Cond.(*ssa.BinOp); isb && bo.Op == token.EQL && g.Pol && (bo.X == ssa.Value(n) || bo.Y == ssa.Value(n)) {
+			continue
+		}
+		// a pooled buffer: dominated by n == const (the pool holds slices of that size only: C06.R6), directly or
+		// through a boolean helper (pooled(n)), or by len(buf) == n tested on the buffer itself
+		ok := false
+		for _, e := range eqFacts(ret.Block()) {
+			for i := 0; i < 2; i++ {
+				a, b := stripIntConv(e[i]), stripIntConv(e[1-i])
+				if a != ssa.Value(n) {
+					continue
+				}
+				if _, isC := b.(*ssa.Const); isC {
+					ok = true
+				}
+				if isLenOf(b, rv) {
 					ok = true
 				}
 			}
-			if !ok {
-				return false
-			}
-		default:
+		}
+		if !ok {
 			return false
 		}
 	}
@@ -719,10 +733,11 @@ func (s *r4state) key() string {
 // flow analysis as for protocol.Read itself, so helpers extracted from Read (or wrapping the primitive
 // reads differently) are analysed, not recognised.
 type r4summary struct {
-	OK   bool
-	Sym  int
-	A, B int64
-	Why  string
+	OK     bool
+	Sym    int
+	SymLen bool // the symbol is the length of the slice parameter Sym
+	A, B   int64
+	Why    string
 }
 
 var r4sumCache = map[string]r4summary{}
@@ -748,15 +763,19 @@ func r4summarise(p *Prog, f *ssa.Function, rpIdx int, depth int) r4summary {
 	}
 	cands := []int{-1}
 	for i, prm := range f.Params {
-		if i != rpIdx && isInteger(prm.Type()) {
+		if i != rpIdx && (isInteger(prm.Type()) || isByteSlice(prm.Type())) {
 			cands = append(cands, i)
 		}
 	}
 	why := ""
 	for _, ci := range cands {
 		var L ssa.Value
+		symLen := false
 		if ci >= 0 {
 			L = f.Params[ci]
+			if isByteSlice(f.Params[ci].Type()) {
+				L, symLen = &lenSym{f.Params[ci]}, true
+			}
 		}
 		rets, err := r4flow(p, f, rp, L, depth)
 		if err != "" {
@@ -810,7 +829,7 @@ func r4summarise(p *Prog, f *ssa.Function, rpIdx int, depth int) r4summary {
 			if ci < 0 && first.A != 0 {
 				continue
 			}
-			return r4summary{OK: true, Sym: ci, A: first.A, B: first.B}
+			return r4summary{OK: true, Sym: ci, SymLen: symLen, A: first.A, B: first.B}
 		}
 		if ok && nSucc == 0 {
 			return r4summary{OK: true, Sym: -1} // never succeeds: no constraint
@@ -1195,6 +1214,8 @@ func r4apply(p *Prog, s *r4state, instr ssa.Instruction, rp ssa.Value, L ssa.Val
 	switch {
 	case isStdCall(c, "bufio", "Reader", "ReadByte"):
 		add(aff{0, 1, true}, "")
+	case isStdCall(c, "bufio", "Reader", "Buffered"), isStdCall(c, "bufio", "Reader", "Peek"), isStdCall(c, "bufio", "Reader", "Size"):
+		// looks at the buffer without consuming
 	case isStdCall(c, "bufio", "Reader", "Discard"):
 		add(affineOf(c.Call.Args[1], L, 0), "Discard of a count that is not affine in the frame length")
 	case isStdCall(c, "io", "", "ReadFull"):
@@ -1219,6 +1240,9 @@ func r4apply(p *Prog, s *r4state, instr ssa.Instruction, rp ssa.Value, L ssa.Val
 				a := aff{0, sm.B, true}
 				if sm.Sym >= 0 && sm.A != 0 {
 					x := affineOf(c.Call.Args[sm.Sym], L, 0)
+					if sm.SymLen {
+						x = sliceLenAff(c.Call.Args[sm.Sym], L, 0)
+					}
 					if !x.OK {
 						add(aff{}, fmt.Sprintf("call %s consumes a multiple of an argument that is not affine in the frame length", exprStr(c)))
 						return
